@@ -586,7 +586,7 @@ func (m *Memory) Sync() error {
 	defer m.mx.Unlock()
 	m.syncMx.Lock()
 	defer m.syncMx.Unlock()
-	m.writeDb(false)
+	<-m.writeDb(false)
 
 	m.log("sync OK")
 
@@ -667,9 +667,11 @@ func (m *Memory) encode(v any) ([]byte, error) {
 }
 
 // writeDb requires [Memory.mx].
-func (m *Memory) writeDb(rLocked bool) {
+func (m *Memory) writeDb(rLocked bool) <-chan struct{} {
+	done := make(chan struct{})
 	if m.SavePending.Load() <= 0 {
-		return
+		close(done)
+		return done
 	}
 
 	q := m.queue
@@ -688,6 +690,7 @@ func (m *Memory) writeDb(rLocked bool) {
 
 	// fork
 	go func() {
+		defer close(done)
 		if rLocked {
 			defer m.syncMx.RUnlock()
 		}
@@ -753,6 +756,8 @@ func (m *Memory) writeDb(rLocked bool) {
 			m.onErr(err)
 		}
 	}()
+
+	return done
 }
 
 func (m *Memory) checkGc() {
